@@ -6,6 +6,7 @@ package fs
 import (
 	"os"
 	"path"
+	"path/filepath"
 	"strings"
 	"strconv"
 	"syscall"
@@ -27,6 +28,9 @@ type InUseLayerMap map[string][]InUseProc
 
 
 func FindLayerUsers(prefix string) (InUseLayerMap, error) {
+	if real, err := filepath.EvalSymlinks(prefix); err == nil {
+		prefix = real
+	}
 	if len(prefix) > 1 && prefix[len(prefix)-1] != '/' {
 		prefix += "/"
 	}
